@@ -78,7 +78,7 @@ class _PVTKReader:
 
     def _make_piece_reader(self, idx: int) -> _FieldDataReader:
         piece = self._piece_files[idx]
-        if not exists(piece) and not isabs(piece) and exists(join(self._dirname, piece)):
+        if not isabs(piece) and exists(join(self._dirname, piece)):
             piece = join(self._dirname, piece)
         return self._piece_reader(piece)
 
